@@ -594,5 +594,7 @@ func runC15(c *Ctx) {
 		}
 		c.Check(bad == "", "C15.R5", "CosmeticEngine.addRule: element-hiding rules reach the table", engAdd.Pos(), "table.addRule(rule) whenever rule.Type == CosmeticElementHiding", bad)
 	}
+	importRules(c, runC04, map[string]string{"C04.R5": "C15.R7"}, map[string]string{"C15.R7": "the domain test CosmeticRule.Match applies is the one the hostname table is keyed for: exact (case-sensitive) equality or a label-boundary suffix (shared with C04.R5)"})
+	importRules(c, runC12, map[string]string{"C12.R7": "C15.R8"}, map[string]string{"C15.R8": "a cosmetic rule reaches the engine as one whole line, however long its domain list (shared with C12.R7)"})
 	importRules(c, runC16, map[string]string{"C16.R4": "C15.R6"}, map[string]string{"C15.R6": "the flags of a cosmetic query reach the gates they are named after: Engine.GetCosmeticResult decodes CSS / GenericCSS / JS into the matching parameters of CosmeticEngine.Match (shared with C16.R4)"})
 }
